@@ -204,6 +204,14 @@ class C13(RebuildProp):
                 f["cands"] = [dict(self.cand(rng, "intact", search=0), shared=(fi == 1))]
                 f["dest_pre"] = "absent"
             out.append({"version": v, "P": B, "tree": t, "nsearch": 1, "unrelated": 1, "clauses": list(self.clauses)})
+        # search directories whose names begin like the destination's ("dest" next to "dest_old", "dest.bak"), or
+        # the other way round ("de")
+        for v in (1, 2, 3):
+            for snames in (["dest_old", "dest.bak"], ["de", "dest2"], ["dest-src"]):
+                c = self.scen(rng, B, v, ("D3", (B + 5, 2 * B, 9)), lambda fi, f: [self.cand(rng, "decoy_all"), self.cand(rng, "intact")],
+                              nsearch=len(snames), file_arg=False, nested_search=False, search_spelling=None, dest_spelling=None)
+                c["search_names"] = snames
+                out.append(c)
         # differently named files with identical bytes whose copies in the search directory are hard links of
         # one another (what jdupes -L / cp -l leave behind)
         for v in (1, 2, 3):
@@ -346,6 +354,21 @@ class C14(RebuildProp):
                                 return [self.cand(rng, c, search=0, depth=k) for k, c in enumerate(second)]
                             return [self.cand(rng, "intact", search=0)]
                         out.append(self.scen(rng, P, v, (sh, sizes), cands, nsearch=1))
+        # one base name recorded twice with different lengths, the longer file = the shorter one plus appended data
+        # (a growing log kept in two snapshots); the shorter one's own copy is missing or enumerated later
+        for v in (1, 2, 3):
+            for P in (B, 2 * B):
+                for short_cands in ([], ["intact"]):
+                    s1 = 2 * P + 100
+                    t = {"name": "tLog", "single": False,
+                         "files": [{"path": ["new", "data.log"], "size": s1 + P + 50, "ckey": "growing-log"},
+                                   {"path": ["old", "data.log"], "size": s1, "ckey": "growing-log"},
+                                   {"path": ["z.bin"], "size": 77}]}
+                    for fi, f in enumerate(t["files"]):
+                        f["dest_pre"] = "absent"
+                        f["cands"] = [self.cand(rng, "intact", search=0, depth=0)]
+                    t["files"][1]["cands"] = [self.cand(rng, c, search=1, depth=2) for c in short_cands]
+                    out.append({"version": v, "P": P, "tree": t, "nsearch": 2, "unrelated": 1, "clauses": list(self.clauses)})
         # files of a few MiB whose destination holds the remains of an interrupted copy (clean prefix / torn tail)
         for v in (1, 2, 3):
             for pre0 in ("shorter", "shorter_dirty"):
